@@ -68,19 +68,19 @@ def confirmed (latest height conf : Nat) : Bool := height + conf < latest
 def eligible (m : List (Nat × Status)) (mt : Dep → Bool) (ds : List Dep) : List Dep :=
   ds.filter fun d => mt d && decide (lookup m d.key ≠ .executed)
 
-/-- P17 (single retry): only eligible deposits, in order (withholding is allowed only under store faults);
-    all of them when no store call fails; an emitted deposit that was pending is released (failed); nothing else is
-    written — in particular executed stays executed -/
-def P17 (m : List (Nat × Status)) (faultFree : Bool) (mt : Dep → Bool) (ds out : List Dep)
+/-- P17 (single retry): only eligible deposits, in order; at most one eligible deposit is withheld per failing store
+    call (so all of them are emitted when no call fails); an emitted deposit that was pending is released (failed);
+    nothing else is written — in particular executed stays executed -/
+def P17 (m : List (Nat × Status)) (faults : List Bool) (mt : Dep → Bool) (ds out : List Dep)
     (m' : List (Nat × Status)) : Prop :=
   out.Sublist (eligible m mt ds) ∧
-  (faultFree = true → out = eligible m mt ds) ∧
+  (eligible m mt ds).length ≤ out.length + faults.count true ∧
   (∀ d ∈ out, lookup m d.key = .pending → lookup m' d.key = .failed) ∧
   (∀ d ∈ ds, lookup m' d.key = lookup m d.key ∨
       (lookup m d.key = .pending ∧ lookup m' d.key = .failed ∧ ∃ d' ∈ ds, mt d' = true ∧ d'.key = d.key))
 
-instance (m : List (Nat × Status)) (ff : Bool) (mt : Dep → Bool) (ds out : List Dep) (m' : List (Nat × Status)) :
-    Decidable (P17 m ff mt ds out m') := by
+instance (m : List (Nat × Status)) (fs : List Bool) (mt : Dep → Bool) (ds out : List Dep) (m' : List (Nat × Status)) :
+    Decidable (P17 m fs mt ds out m') := by
   unfold P17; infer_instance
 
 /-- no store call fails -/
